@@ -16,6 +16,7 @@ CONSTANTS
   Alias = {}
   TrackTouch = FALSE
   MisTag = {}
-INVARIANTS TypeOK ReadsLastCommitted ScansExactMembers IterSound ResultsIgnoreTouched OwnFamilyOnly
+  BufOrder = "seq"
+INVARIANTS TypeOK ReadsLastCommitted ScansExactMembers IterSound ResultsIgnoreTouched OwnFamilyOnly BufferIsSequence
 PROPERTY OnlyCommitChanges
 CHECK_DEADLOCK FALSE
